@@ -17,7 +17,7 @@ from typing import (
 from confectioner.templating import dotted_key_exists, get_dotted_key
 
 from .exceptions import EvaluationError, InsufficientInformationError
-from .runtime import Request
+from .runtime import Request, current_runtime
 
 JSONScalar = Union[str, int, float, bool, None]
 JSON = Union[JSONScalar, Mapping[str, "JSON"], Sequence["JSON"]]
@@ -553,16 +553,26 @@ def _present_keys(explainable: Explainable, options: Options) -> Set[str]:
     missing key cannot be part of a fingerprint, but a present one (an out-of-domain
     value, a templated value with an unresolvable reference) can and must be.
     """
+    outer = current_runtime()
+
+    def _tolerant_explain(request: "ExplainRequest") -> Set[str]:
+        # A branch that cannot be chosen because its selector (the dispatch of a
+        # switch, the source of a bind) cannot be evaluated: the selector decided the
+        # failure, so the object depends on whatever the selector depends on - under
+        # the options in effect at that point, so that enclosing pre-set options
+        # still filter the keys they supply.
+        try:
+            return outer.run(request)
+        except InsufficientInformationError as e:
+            source = request.explainable
+            selector = getattr(source, "dispatch", getattr(source, "evaluatable", None))
+            if e.source is source and isinstance(selector, Explainable):
+                return selector.explain(request.options)
+            raise
+
     try:
-        keys = explainable.explain(options)
-    except InsufficientInformationError as e:
-        # A branch could not be chosen because a selector (the dispatch of a switch,
-        # the source of a bind) could not be evaluated: that selector decided the
-        # failure, so depend on whatever it depends on.
-        selector = getattr(e.source, "dispatch", getattr(e.source, "evaluatable", None))
-        if isinstance(selector, Explainable) and selector is not explainable:
-            return _present_keys(selector, options)
-        return set(options.keys())
+        with outer.handle(ExplainRequest, _tolerant_explain):
+            keys = explainable.explain(options)
     except Exception:  # noqa: E722
         # Unknown: anything present may have contributed to the failure.
         return set(options.keys())
